@@ -1,7 +1,7 @@
 //! C18 part `pbc`: the "panic-by-construction" readers: sklb/havok, layer (lgb), avfx, dic, stm.
 //!
-//! Ops: `stm <hex>` / `avfx <hex>` (complete models after fixes 60-62: outcome class `none`/`some`),
-//! `sklb <hex>` / `lgb <hex>` / `dic <hex>` (recorded findings: any non-crashing outcome is `ok`).
+//! Ops: `stm <hex>` / `avfx <hex>` / `lgb <hex>` (complete models after fixes 60-62, 65, 68, 69: outcome
+//! class `none`/`some`), `sklb <hex>` / `dic <hex>` (recorded findings: any non-crashing outcome is `ok`).
 #![allow(unused)]
 use crate::alloc;
 use crate::c18::*;
@@ -18,7 +18,7 @@ pub fn run(f: &[&str]) -> Option<String> {
         ("stm", 2) => Some(asset(f[1], |b| cls(physis::stm::StainingTemplate::from_existing(b)))),
         ("avfx", 2) => Some(asset(f[1], |b| cls(physis::avfx::Avfx::from_existing(b)))),
         ("sklb", 2) => Some(asset(f[1], |b| okc(physis::skeleton::Skeleton::from_existing(b)))),
-        ("lgb", 2) => Some(asset(f[1], |b| okc(physis::layer::LayerGroup::from_existing(b)))),
+        ("lgb", 2) => Some(asset(f[1], |b| cls(physis::layer::LayerGroup::from_existing(b)))),
         ("dic", 2) => Some(asset(f[1], |b| okc(physis::dic::Dictionary::from_existing(b)))),
         _ => None,
     }
@@ -449,7 +449,13 @@ fn lgb_layer(objects: &[(u32, Vec<u8>)], sets: u32, obsets: u32, name: &str) -> 
         for k in 0..9 {
             b.f32(k as f32);
         }
-        b.raw(p, false).bound();
+        // payload: 4-byte words are corruptible fields (inner enums), the tail is raw
+        let mut k = 0;
+        while k + 4 <= p.len() && k < 48 {
+            b.u32(u32::from_le_bytes([p[k], p[k + 1], p[k + 2], p[k + 3]]));
+            k += 4;
+        }
+        b.raw(&p[k..], false).bound();
     }
     b.u32(1).u32(0).u32(sets);
     for i in 0..sets {
@@ -536,6 +542,53 @@ fn lgb_seeds(rng: &mut Rng) -> Vec<Seed> {
     ];
     v.push(lgb_file(vec![lgb_layer(&objs[..3], 2, 1, "objs")]));
     v.push(lgb_file(vec![lgb_layer(&objs[3..], 0, 2, "more"), lgb_layer(&objs[..1], 1, 0, "second")]));
+    // every object kind that has a reader: (asset type, [(is_enum, value-or-length)])
+    let kinds: Vec<(u32, Vec<(bool, u32)>)> = vec![
+        (0x1, vec![(false, 8), (true, 2), (false, 20)]),
+        (0x3, vec![(true, 6), (false, 8), (true, 1), (false, 43)]),
+        (0x4, vec![(false, 40)]),
+        (0x5, vec![(true, 4), (false, 8)]),
+        (0x6, vec![(false, 4), (true, 3), (false, 8), (true, 2), (false, 16), (true, 3), (true, 0)]),
+        (0x7, vec![(false, 8)]),
+        (0x8, vec![(false, 40)]),
+        (0x9, vec![(false, 104)]),
+        (0xC, vec![(false, 12)]),
+        (0xD, vec![(false, 8), (true, 3), (false, 24)]),
+        (0xE, vec![(false, 8)]),
+        (0x10, vec![(false, 12)]),
+        (0x28, vec![(true, 3), (false, 20)]),
+        (0x29, vec![(true, 6), (false, 8), (true, 1), (false, 24)]),
+        (0x2B, vec![]),
+        (0x2D, vec![]),
+        (0x2F, vec![]),
+        (0x33, vec![]),
+        (0x39, vec![]),
+        (0x3B, vec![]),
+        (0x41, vec![]),
+        (0x42, vec![]),
+        (0x43, vec![]),
+        (0x44, vec![]),
+        (0x45, vec![]),
+        (0x47, vec![]),
+        (0x48, vec![]),
+    ];
+    for chunk in kinds.chunks(7) {
+        let mut objs2: Vec<(u32, Vec<u8>)> = vec![];
+        for (ty, items) in chunk {
+            let mut p = vec![];
+            for (is_enum, x) in items {
+                if *is_enum {
+                    p.extend_from_slice(&x.to_le_bytes());
+                } else {
+                    p.extend(rng.bytes(*x as usize));
+                }
+            }
+            objs2.push((*ty, p));
+        }
+        let mut s = lgb_file(vec![lgb_layer(&objs2, 1, 1, "kinds")]);
+        // the enum fields of the payloads are worth corrupting: register every 4-byte word of the objects
+        v.push(s);
+    }
     // an object kind without a reader (Attribute = 2): no variant matches
     v.push(lgb_file(vec![lgb_layer(&[(2, vec![0; 8])], 0, 0, "nov")]));
     v
